@@ -6,6 +6,7 @@ import (
 	"regexp"
 	"sort"
 	"strings"
+	"time"
 
 	"verif/mc/engine"
 	"verif/mc/sim"
@@ -717,6 +718,9 @@ func init() {
 		Level: "exploration",
 		Rule: "every probe statement of the stated alphabet (set T op= E for all 15 operators x pool targets x typed expressions of depth<=1 (quick) / <=2 (thorough); bare conditions, log, fresh-local assignment; copy-then-modify two-step histories; nested calls) in scopes recv/miss/fetch/error/deliver, each run on the real interpreter between snapshots of the whole pool; non-trivial = the statement executed without runtime error (others are skipped, not counted); distinct = distinct (scope, statements) Round 3: the pool has a never-assigned STRING local (set / not-set observed for every STRING local) and obj.response in the error scope; a family of REGEX locals and REGEX parameters observed through matches. Round 4: var.i2 = -130 (a shift / rotate count that has to be reduced).",
 		Gen:  gen,
+		// the depth-2 alphabet of the thorough tier runs for hours on a loaded machine: a worker starts no further case after
+		// 30 minutes and the rest is reported as a cap (exhaustive=false)
+		SoftDeadline: map[string]time.Duration{"thorough": 30 * time.Minute},
 		Key:  func(c Case) string { return c.Scope + "\x00" + strings.Join(c.Stmts, "\x00") + fmt.Sprint(c.NoPrime) },
 		Run:  run,
 		Assumptions: []string{
